@@ -384,7 +384,7 @@ def cases_scenarios(tier):
     return gen_cases
 
 
-def body_soak(rep, case):
+def body_soak(rep, case, prop="C07"):
     """Tens of thousands of datagrams through ONE bridge object on one port: every valid one must still arrive exactly once."""
     async def go():
         rig = udptx.Rig(1)
@@ -414,14 +414,14 @@ def body_soak(rep, case):
     want, got, dead, loop_errors, warns, logs = net.run(go(), timeout=900)
     rep.tick("soak", key=case, nontrivial=True, sample=case, n=case["n"], labels=("soak",))
     if dead:
-        raise Violation("C07/delivery-stops/soak", case, "closing sentinel delivered", {"loop_errors": loop_errors[:3]})
+        raise Violation(f"{prop}/delivery-stops/soak", case, "closing sentinel delivered", {"loop_errors": loop_errors[:3]})
     if want != got:
         k = next((i for i, (a, b) in enumerate(zip(want, got)) if a != b), min(len(want), len(got)))
-        raise Violation("C07/soak-delivery-mismatch", case, {"valid_sent": len(want)},
+        raise Violation(f"{prop}/soak-delivery-mismatch", case, {"valid_sent": len(want)},
                         {"delivered": len(got), "first_difference_at_valid_no": k, "datagram_no": k * case["valid_every"],
                          "loop_errors": loop_errors[:2]})
     if loop_errors or warns:
-        raise Violation("C07/soak-noise", case, "no loop error, no warning", {"loop_errors": loop_errors[:2], "warnings": warns[:2]})
+        raise Violation(f"{prop}/soak-noise", case, "no loop error, no warning", {"loop_errors": loop_errors[:2], "warnings": warns[:2]})
 
 
 def cases_soak(tier):
